@@ -155,6 +155,12 @@ pub fn filter_file_pattern<'a>(
   let do_match = |ast_grep: AstGrep, matcher: &'a Pattern<SgLang>| {
     let fixed = matcher.fixed_string();
     if !fixed.is_empty() && !file_content.contains(&*fixed) {
+      #[cfg(feature = "verif-hooks")]
+      ast_grep_core::verif::prune(
+        "cli.fixed_string",
+        || ast_grep.root().find(matcher).is_some(),
+        || format!("path={} fixed={:?}", path.display(), fixed),
+      );
       return None;
     }
     Some(MatchUnit {
